@@ -197,7 +197,26 @@ def check(rep):
                         meta.append({'utf8': label})
                 rc.written.clear()
                 rk, ex = wire.rand_name(rng), wire.rand_name(rng)
-                ch.basic.publish(body, rk, ex, properties=props, mandatory=rng.random() < 0.2)
+                via = 'basic'
+                if kind == 'bytes' and rng.random() < 0.25:
+                    # the same payload published through a Message object as a consumer that forwards it would: the object
+                    # shows decoded views (auto_decode), what goes out must still be the raw payload
+                    from amqpstorm import Message
+                    via = 'message'
+                    mprops = dict(props or {})
+                    if rng.random() < 0.5:
+                        mprops['content_encoding'] = rng.choice(['utf-16-le', 'latin-1', 'binary', ''])
+                    try:
+                        Message(ch, body=body, properties=mprops, auto_decode=True).publish(rk, ex, mandatory=rng.random() < 0.2)
+                    except Exception as why:   # noqa  -- a bytes payload needs no codec: nothing may be raised
+                        rep.violation('C04/publish-of-bytes-raises', 'Message.publish of a %d byte payload (content_encoding %r) raised %r' % (
+                            len(body), mprops.get('content_encoding'), why),
+                            {'srv_frame_max': srv, 'body_len': len(body), 'kind': 'bytes-via-message', 'body_hex': body[:256].hex(),
+                             'content_encoding': mprops.get('content_encoding')})
+                        continue
+                else:
+                    ch.basic.publish(body, rk, ex, properties=props, mandatory=rng.random() < 0.2)
+                rep.count('published_via', via)
                 cid, frames = rc.written[-1]
                 replay = {'srv_frame_max': srv, 'body_len': len(encoded), 'kind': kind,
                           'body_hex': encoded.hex() if len(encoded) <= 256 else None,
